@@ -301,7 +301,7 @@ type RunOpts struct {
 
 // relaxedQuery: the obligation's query without quantified assumptions (candidate models only).
 func (o *Obligation) relaxedQuery() string {
-	return o.Ctx.smt.renderOpt(o.UpTo, []string{o.Reach, not(o.Goal)}, nil, true)
+	return o.Ctx.smt.renderScoped(o.UpTo, []string{o.Reach, not(o.Goal)}, nil, true, o.Scope)
 }
 
 func (o *Obligation) query(extraValues bool) string {
@@ -314,7 +314,7 @@ func (o *Obligation) query(extraValues bool) string {
 	if extraValues {
 		gv = c.witness
 	}
-	return c.smt.render(o.UpTo, extra, gv)
+	return c.smt.renderScoped(o.UpTo, extra, gv, false, o.Scope)
 }
 
 func dischargeAll(obls []*Obligation, opts RunOpts) {
